@@ -2,6 +2,7 @@ package checks
 
 import (
 	"bytes"
+	"context"
 	"encoding/json"
 	"fmt"
 	"os"
@@ -9,6 +10,7 @@ import (
 	"path/filepath"
 	"strings"
 	"sync"
+	"time"
 
 	"verif/mc"
 	"verif/ref"
@@ -384,7 +386,17 @@ func c19Run(c *Ctx) {
 	}
 }
 
+// c19Poisoned: a thread torn down at a deadlock died holding a lock of the
+// library; package-level state of this process is unusable from then on (the
+// next call would wait for that lock for ever). Every later execution of this
+// worker reports the same failure instead of running.
+var c19Poisoned *fail
+
 func c19Driver(x *X, info *pointTable, combo []int, coarse bool) {
+	if c19Poisoned != nil {
+		x.fails = append(x.fails, *c19Poisoned)
+		return
+	}
 	sh := newC19Shared()
 	before := tree.Dump(sh.blocks, sh.refs, tree.Full)
 	var names []string
@@ -407,7 +419,11 @@ func c19Driver(x *X, info *pointTable, combo []int, coarse bool) {
 		if strings.HasPrefix(s.abort, "no progress") {
 			kind = "no-progress"
 		}
-		x.Fail(kind, cfg, in, "%s; %s", s.abort, sched)
+		x.Fail(kind, cfg, in, "%s; %s (not replayed: the torn-down threads may still hold locks of the library, so this worker stops here)", s.abort, sched)
+		x.fails[len(x.fails)-1].final = true
+		f := x.fails[len(x.fails)-1]
+		c19Poisoned = &f
+		x.StopExploring()
 		return
 	}
 	for i, t := range s.threads {
@@ -605,6 +621,8 @@ func c19RacePass(verifDir, tier string) (map[string]any, []Violation, error) {
 		args []string
 		out  string
 		err  error
+
+		timedOut bool
 	}
 	var jobs []*job
 	for _, combo := range c19Combos(2) {
@@ -621,12 +639,21 @@ func c19RacePass(verifDir, tier string) (map[string]any, []Violation, error) {
 			defer wg.Done()
 			sem <- struct{}{}
 			defer func() { <-sem }()
-			cmd := exec.Command(bin, j.args...)
+			ctx, cancel := context.WithTimeout(context.Background(), 5*time.Minute)
+			defer cancel()
+			cmd := exec.CommandContext(ctx, bin, j.args...)
 			cmd.Env = append(os.Environ(), "GORACE=halt_on_error=1 exitcode=66", "GOMAXPROCS=4")
 			var out bytes.Buffer
 			cmd.Stdout, cmd.Stderr = &out, &out
 			j.err = cmd.Run()
 			j.out = out.String()
+			if ctx.Err() != nil {
+				// Free-running goroutines that never end (a real deadlock between
+				// them): not a verdict of this pass - deadlocks are decided by the
+				// scheduler exploration of part 1 - but recorded in the evidence.
+				j.err = nil
+				j.timedOut = true
+			}
 		}()
 	}
 	wg.Wait()
@@ -636,8 +663,12 @@ func c19RacePass(verifDir, tier string) (map[string]any, []Violation, error) {
 	}
 	var tails []string
 	var viol []Violation
+	timeouts := 0
 	for _, j := range jobs {
 		tails = append(tails, lastLines(j.out, 1))
+		if j.timedOut {
+			timeouts++
+		}
 		if j.err == nil {
 			continue
 		}
@@ -658,6 +689,7 @@ func c19RacePass(verifDir, tier string) (map[string]any, []Violation, error) {
 			viol = append(viol, Violation{Property: "C19", Exploration: "race-pass", Kind: kind, Config: strings.Join(j.args, " "), Message: truncate(text, 3000), Replay: path, InputQuoted: "(free-running goroutines, " + strings.Join(j.args, " ") + ")", Confirmed: 1})
 		}
 	}
+	ev["race_pass_processes_stopped_after_5min_without_ending"] = timeouts
 	ev["race_pass_output_tail"] = truncate(strings.Join(tails[len(tails)-3:], " | "), 600)
 	return ev, viol, nil
 }
